@@ -323,6 +323,7 @@ def _pure_query(ctx, formulas, timeout_ms):
 def piecewise_bound(args):
     name, modk, kwargs = args['name'], args['mod'], args['kwargs']
     min_width, max_cells = args.get('min_width', 1e-4), args.get('max_cells', 4000)
+    tol = args.get('tol', TOL)
     from artap.individual import Individual
     prob = _make(name, modk, kwargs)
     opt = prob.global_optimum
@@ -339,7 +340,7 @@ def piecewise_bound(args):
         ctx.check('returns-one-cost', not isinstance(r, (list, tuple)) or len(r) != 1)
         v = r[0]
         ctx.output('value', v)
-        bad = (v < opt - TOL) if direction == 'min' else (v > opt + TOL)
+        bad = (v < opt - tol) if direction == 'min' else (v > opt + tol)
         if not ctx.symbolic or ctx.engine.dry:
             ctx.check('no-point-beats-documented-optimum(branch-and-bound)', bad)
             return
@@ -363,7 +364,7 @@ def piecewise_bound(args):
                     fv = core.float_eval(v.t, {str(xi.t): mv for xi, mv in zip(x, mids)})
                 except Exception:
                     fv = None
-                if fv is not None and ((fv < opt - TOL) if direction == 'min' else (fv > opt + TOL)):
+                if fv is not None and ((fv < opt - tol) if direction == 'min' else (fv > opt + tol)):
                     ctx.solver.set('timeout', ctx.engine.query_timeout_ms)
                     pin = [xi.t == ops.rv(Fraction(mv)) for xi, mv in zip(x, mids)]
                     for f in pin + _established(ctx, pin, _enclosures(ctx, x, [(mv, mv) for mv in mids])):
@@ -514,5 +515,10 @@ def configs(tier):
     for name, modk in (('GramacyLee', 'BF'), ('Synthetic1D', 'BR'), ('Synthetic2D', 'BR')):
         out.append({'name': 'BB-' + name, 'task': 'piecewise_bound', 'args': {'name': name, 'mod': modk, 'kwargs': {}},
                     'weight': 8, 'allow_no_reach': False,
+                    'engine': {'validate': 3, 'first_timeout_s': 4, 'query_timeout_s': 30, 'final_timeout_s': 40}})
+    if tier == 'thorough':
+        # GramacyLee documents its optimum to 15 digits: the bound clause with tolerance 1e-6 instead of 1e-3
+        out.append({'name': 'BB-GramacyLee-tol1e-6', 'task': 'piecewise_bound',
+                    'args': {'name': 'GramacyLee', 'mod': 'BF', 'kwargs': {}, 'tol': 1e-6, 'min_width': 1e-7}, 'weight': 8, 'allow_no_reach': False,
                     'engine': {'validate': 3, 'first_timeout_s': 4, 'query_timeout_s': 30, 'final_timeout_s': 40}})
     return out
